@@ -28,6 +28,18 @@ pub fn fold(d: u64, t: u64) -> Result<u64, Fail> {
     j.pool().ok_or_else(no_hook)
 }
 
+/// one fold through `timer_stats(true)`: the time value `t`, then the two readings from which the
+/// variable loop counts (memory access, LFSR) are derived
+pub fn fold_var(d: u64, t: u64, r_mem: u64, r_lfsr: u64) -> Result<u64, Fail> {
+    let mut g = adapter::jitter_gen(Script::new(vec![t, r_mem, r_lfsr, t], 0), None, 16);
+    let j = g.jitter().unwrap();
+    if !j.set_pool(d) {
+        return Err(no_hook());
+    }
+    j.timer_stats(true);
+    j.pool().ok_or_else(no_hook)
+}
+
 pub fn stir(d: u64) -> Result<u64, Fail> {
     let mut g = adapter::jitter_gen(Script::new(vec![1], 0), None, 16);
     let j = g.jitter().unwrap();
@@ -79,6 +91,8 @@ pub enum MapSel {
     FoldTime { d: u64 },
     Stir,
     Collect { prog: TimerProg, rounds: u8 },
+    /// F(., t) through timer_stats(true): variable loop counts derived from the readings r1, r2
+    FoldVar { t: u64, r1: u64, r2: u64 },
 }
 
 impl MapSel {
@@ -88,6 +102,20 @@ impl MapSel {
             MapSel::FoldTime { .. } => "fold-in-time",
             MapSel::Stir => "stir",
             MapSel::Collect { .. } => "collection",
+            MapSel::FoldVar { .. } => "fold-in-pool-var-rounds",
+        }
+    }
+    /// the time value this map folds first (for maps of the pool)
+    fn own_time(&self) -> Option<u64> {
+        match self {
+            MapSel::FoldPool { t } | MapSel::FoldVar { t, .. } => Some(*t),
+            MapSel::Collect { prog, .. } => {
+                // the priming measurement folds reading #2 - reading #0, truncated to 32 bits and
+                // sign-extended
+                let sc = prog.script();
+                Some(sc.at(2).wrapping_sub(sc.at(0)) as u32 as i32 as i64 as u64)
+            }
+            _ => None,
         }
     }
     fn eval(&self, x: u64) -> Result<u64, Fail> {
@@ -96,6 +124,7 @@ impl MapSel {
             MapSel::FoldTime { d } => fold(*d, x),
             MapSel::Stir => stir(x),
             MapSel::Collect { prog, rounds } => collect(x, &prog.script(), *rounds),
+            MapSel::FoldVar { t, r1, r2 } => fold_var(x, *t, *r1, *r2),
         }
     }
 }
@@ -127,6 +156,69 @@ pub struct BirthdayCase {
     pub map: MapSel,
     pub start: u64,
     pub log2_samples: u32,
+}
+
+/// how the inputs of an orbit case are related
+#[derive(Clone, Debug, Serialize, Deserialize)]
+pub enum Rel {
+    /// x' = one documented LFSR fold of x with the time value the map itself folds first
+    ModelFoldOwn,
+    /// x' = one documented LFSR fold of x with this time value
+    ModelFold(u64),
+    /// x' = the real code's single fold (timer_stats(false)) of x with the map's own time value
+    RealFoldOwn,
+    Rotl(u32),
+    ModelStir,
+    Add(u64),
+}
+
+/// inputs related by the building blocks of the step itself: x, g(x), g(g(x)), ... are pairwise
+/// different pool contents (g is a bijection with long cycles) and must not be merged by the map
+#[derive(Clone, Debug, Serialize, Deserialize)]
+pub struct OrbitCase {
+    pub map: MapSel,
+    pub x: u64,
+    pub rel: Rel,
+    pub len: usize,
+}
+
+pub fn check_orbit(c: &OrbitCase) -> CheckResult {
+    use crate::refmodel::jitter as jm;
+    let own = c.map.own_time();
+    let mut xs = vec![c.x];
+    for _ in 1..c.len.clamp(2, 24) {
+        let x = *xs.last().unwrap();
+        let nx = match (&c.rel, own) {
+            (Rel::ModelFoldOwn, Some(t)) => jm::fold(x, t),
+            (Rel::RealFoldOwn, Some(t)) => fold(x, t)?,
+            (Rel::ModelFold(t), _) => jm::fold(x, *t),
+            (Rel::Rotl(k), _) => x.rotate_left(*k % 64),
+            (Rel::ModelStir, _) => jm::stir(x),
+            (Rel::Add(a), _) => x.wrapping_add(*a | 1),
+            (_, None) => x.rotate_left(1) ^ 1,
+        };
+        xs.push(nx);
+    }
+    let ys: Vec<u64> = xs.iter().map(|x| c.map.eval(*x)).collect::<Result<_, _>>()?;
+    let mut distinct_inputs = 0;
+    for i in 0..xs.len() {
+        for j in i + 1..xs.len() {
+            if xs[i] != xs[j] {
+                distinct_inputs += 1;
+                if ys[i] == ys[j] {
+                    return Err(collision(&c.map, xs[i], xs[j]));
+                }
+            }
+        }
+    }
+    Ok(CaseInfo::new(distinct_inputs > 0).class(c.map.name()).class(match c.rel {
+        Rel::ModelFoldOwn => "related-by:documented-fold-same-time",
+        Rel::ModelFold(_) => "related-by:documented-fold-other-time",
+        Rel::RealFoldOwn => "related-by:real-fold-same-time",
+        Rel::Rotl(_) => "related-by:rotation",
+        Rel::ModelStir => "related-by:documented-stir",
+        Rel::Add(_) => "related-by:addition",
+    }))
 }
 
 fn collision(map: &MapSel, x: u64, y: u64) -> Fail {
@@ -284,10 +376,11 @@ fn word() -> BoxedStrategy<u64> {
 
 fn map_sel(with_collect: bool) -> BoxedStrategy<MapSel> {
     let coll = (gens::timer_prog(false, 6), 1u8..=4).prop_map(|(prog, rounds)| MapSel::Collect { prog, rounds });
+    let var = (word(), word(), word()).prop_map(|(t, r1, r2)| MapSel::FoldVar { t, r1, r2 });
     if with_collect {
-        prop_oneof![3 => word().prop_map(|t| MapSel::FoldPool { t }), 3 => word().prop_map(|d| MapSel::FoldTime { d }), 3 => Just(MapSel::Stir), 2 => coll].boxed()
+        prop_oneof![3 => word().prop_map(|t| MapSel::FoldPool { t }), 3 => word().prop_map(|d| MapSel::FoldTime { d }), 3 => Just(MapSel::Stir), 2 => coll, 2 => var].boxed()
     } else {
-        prop_oneof![3 => word().prop_map(|t| MapSel::FoldPool { t }), 3 => word().prop_map(|d| MapSel::FoldTime { d }), 3 => Just(MapSel::Stir)].boxed()
+        prop_oneof![3 => word().prop_map(|t| MapSel::FoldPool { t }), 3 => word().prop_map(|d| MapSel::FoldTime { d }), 3 => Just(MapSel::Stir), 2 => var].boxed()
     }
 }
 
@@ -311,6 +404,27 @@ pub fn def(ctx: &Ctx) -> PropDef {
             check_pair,
         ));
     }
+    for part in 0..2 {
+        subs.push(PSub::boxed(
+            format!("orbit-related/{}", part),
+            t.pick(10_000, 1_000_000),
+            || {
+                let rel = prop_oneof![
+                    4 => Just(Rel::ModelFoldOwn),
+                    3 => Just(Rel::RealFoldOwn),
+                    2 => word().prop_map(Rel::ModelFold),
+                    2 => prop_oneof![Just(1u32), Just(7), Just(57), Just(63), 1u32..64].prop_map(Rel::Rotl),
+                    1 => Just(Rel::ModelStir),
+                    1 => word().prop_map(Rel::Add),
+                ];
+                let coll = (gens::timer_prog(false, 6), 1u8..=4).prop_map(|(prog, rounds)| MapSel::Collect { prog, rounds });
+                let var = (word(), word(), word()).prop_map(|(t, r1, r2)| MapSel::FoldVar { t, r1, r2 });
+                let map = prop_oneof![2 => word().prop_map(|t| MapSel::FoldPool { t }), 1 => Just(MapSel::Stir), 4 => coll, 4 => var];
+                (map, word(), rel, 4usize..=16).prop_map(|(map, x, rel, len)| OrbitCase { map, x, rel, len }).boxed()
+            },
+            check_orbit,
+        ));
+    }
     subs.push(PSub::boxed("fold-joint-affinity", t.pick(20_000, 1_000_000), || ([word(), word(), word()], [word(), word(), word()]).prop_map(|(d, t)| JointCase { d, t }).boxed(), check_joint));
     subs.push(PSub::boxed("rank/generated", t.pick(200, 5000), || map_sel(true).boxed(), check_rank));
     subs.push(ESub::boxed(
@@ -323,7 +437,7 @@ pub fn def(ctx: &Ctx) -> PropDef {
     subs.push(PSub::boxed("birthday", t.pick(8, 24), move || (map_sel(false), any::<u64>()).prop_map(move |(map, start)| BirthdayCase { map, start, log2_samples: lg }).boxed(), check_birthday));
     PropDef {
         id: "C15",
-        rule: "three maps of the 64-bit pool are observed on the real code through the cfg(rngs_verif) hooks: the LFSR fold F(d,t) (in d for generated fixed t, in t for generated fixed d), the stir S(d), and whole collections C_s(d) over generated timer scripts (fold + rotate-by-7 + stir composed). Generated inputs (uniform, sparse 1-3 bits, dense, half-word, zero): (1) affinity triples M(a)^M(b)^M(c) = M(a^b^c) with a pairwise collision test, and joint affinity of F in (d,t); (2) if affine: the 64x64 linear part extracted from the basis must have rank 64 (a defect gives a kernel vector and an executed colliding pair), and the real map must follow the affine rule also at its algebraically special inputs (fixed point, result = complement of input, result = 0 / all ones), solved for from the extracted map; (3) model-free collision search: single-bit, double-bit, byte and random differentials, and a birthday search over 2^16 (thorough 2^21) outputs per map. Only an executed collision is a violation; a non-affine map gets no algebraic verdict. Non-trivial = triple of three distinct non-zero values / pair with a non-zero difference; distinct by hash of the case.".into(),
+        rule: "three maps of the 64-bit pool are observed on the real code through the cfg(rngs_verif) hooks: the LFSR fold F(d,t) (in d for generated fixed t, in t for generated fixed d), the stir S(d), whole collections C_s(d) over generated timer scripts (fold + rotate-by-7 + stir composed), and the fold with variable loop counts (timer_stats(true), loop-count readings generated). Generated inputs (uniform, sparse 1-3 bits, dense, half-word, zero): (1) affinity triples M(a)^M(b)^M(c) = M(a^b^c) with a pairwise collision test, and joint affinity of F in (d,t); (2) if affine: the 64x64 linear part extracted from the basis must have rank 64 (a defect gives a kernel vector and an executed colliding pair), and the real map must follow the affine rule also at its algebraically special inputs (fixed point, result = complement of input, result = 0 / all ones), solved for from the extracted map; (3) model-free collision search: single-bit, double-bit, byte and random differentials, a birthday search over 2^16 (thorough 2^21) outputs per map, and orbit-related inputs: chains x, g(x), g(g(x)), ... of 4-16 pool contents related by a building block g of the step itself (the documented or the real single LFSR fold with the time value the map folds first, another fold, a rotation, the documented stir, an addition) must be mapped to pairwise different results (a step that applies a building block a pool-dependent number of times merges exactly such inputs). Only an executed collision is a violation; a non-affine map gets no algebraic verdict. Non-trivial = triple of three distinct non-zero values / pair with a non-zero difference; distinct by hash of the case.".into(),
         explanation: Some("2^64 x 2^64 inputs cannot be enumerated. The pool updates are XOR/shift/rotate networks, i.e. affine maps over GF(2); generated triples establish affinity (BLR test), the linear part is then read off the real code on the 64 basis inputs and its rank decides bijectivity exactly. The rotation by 7 cannot be isolated through the hooks, but a composition of maps on a finite set is bijective only if every factor is, so the rank of whole collections covers it. The LFSR taps themselves are C12's subject: a different but bijective fold does not alarm here.".into()),
         assumptions: vec!["affinity outside the sampled triples".into(), "hooks verif_pool / verif_set_pool / verif_stir_once observe and set JitterRng's pool without other effects".into()],
         subs,
